@@ -209,7 +209,65 @@ def correspondences(tier, rng):
         s = types.SimpleNamespace(glyphs={order[i] for i in x[4]})
         t.closure_glyphs(s)
         return sorted(order.index(g) for g in s.glyphs)
-    return [Corr("closure_gsub", c5, impl_gsub, enc=lambda x: x[1:], compare=cmp_closure),
+    # --- ligature subtables: subset_glyphs on the real class; the model's reading of a subtable against HarfBuzz
+    def gen_lig():
+        firsts = rng.sample(range(0, 10), rng.randint(1, 4))
+        l = []
+        for f in firsts:                                         # grouped by first glyph, as the `ligatures` dict is
+            for _ in range(rng.randint(1, 4)):
+                comps = [rng.randint(0, 9) for _ in range(rng.choice([1, 1, 2, 2, 3, 0]))]
+                if rng.chance(40) and l and l[-1][0] == f: comps = list(l[-1][1][0][:rng.randint(0, len(l[-1][1][0]))]) + ([rng.randint(0, 9)] if rng.chance(50) else [])
+                l.append((f, (comps, rng.randint(0, 11))))
+        return l
+    def mk_ligsub(l):
+        st = ot.LigatureSubst(); st.ligatures = {}
+        for f, (comps, lg) in l:
+            L = ot.Ligature(); L.Component = [G(c) for c in comps]; L.CompCount = len(comps) + 1; L.LigGlyph = G(lg)
+            st.ligatures.setdefault(G(f), []).append(L)
+        return st
+    c6 = [(gen_lig(), sorted(set(rng.randint(0, 11) for _ in range(rng.randint(0, 10))))) for _ in range(n)]
+    def impl_subset_lig(x):
+        l, keep = x
+        st = mk_ligsub(l); st.subset_glyphs(types.SimpleNamespace(glyphs={G(i) for i in keep}))
+        return [(int(f[1:]), ([int(c[1:]) for c in L.Component], int(L.LigGlyph[1:]))) for f, ligs in st.ligatures.items() for L in ligs]
+    def lig_font(l):
+        from fontTools.fontBuilder import FontBuilder
+        from fontTools.pens.ttGlyphPen import TTGlyphPen
+        order = [".notdef"] + [G(i) for i in range(12)]
+        fb = FontBuilder(1000, isTTF=True); fb.setupGlyphOrder(order); fb.setupCharacterMap({0x61 + i: G(i) for i in range(12)})
+        fb.setupGlyf({g: TTGlyphPen(None).glyph() for g in order}); fb.setupHorizontalMetrics({g: (500, 0) for g in order})
+        fb.setupHorizontalHeader(ascent=800, descent=-200); fb.setupNameTable({"familyName": "L", "styleName": "R"}); fb.setupOS2(); fb.setupPost()
+        t = ot.GSUB(); t.Version = 0x00010000
+        lk = B.buildLookup([mk_ligsub(l)])
+        t.LookupList = ot.LookupList(); t.LookupList.Lookup = [lk]; t.LookupList.LookupCount = 1
+        fr = ot.FeatureRecord(); fr.FeatureTag = "liga"; fr.Feature = ot.Feature(); fr.Feature.FeatureParams = None
+        fr.Feature.LookupListIndex = [0]; fr.Feature.LookupCount = 1
+        t.FeatureList = ot.FeatureList(); t.FeatureList.FeatureRecord = [fr]; t.FeatureList.FeatureCount = 1
+        sr = ot.ScriptRecord(); sr.ScriptTag = "DFLT"; sr.Script = ot.Script(); sr.Script.LangSysRecord = []; sr.Script.LangSysCount = 0
+        ls = ot.DefaultLangSys(); ls.ReqFeatureIndex = 0xFFFF; ls.FeatureIndex = [0]; ls.FeatureCount = 1; ls.LookupOrder = None
+        sr.Script.DefaultLangSys = ls
+        t.ScriptList = ot.ScriptList(); t.ScriptList.ScriptRecord = [sr]; t.ScriptList.ScriptCount = 1
+        from fontTools.ttLib import newTable
+        g = newTable("GSUB"); g.table = t; fb.font["GSUB"] = g
+        b = io.BytesIO(); fb.save(b); return b.getvalue(), order
+    c7 = []
+    for _ in range(max(60, n // 8)):
+        l = [e for e in gen_lig() if e[1][0]]                     # a ligature of one glyph alone is a single substitution: not built here
+        if not l: continue
+        try: data, order = lig_font(l)
+        except Exception: continue
+        for _t in range(4):
+            text = [rng.choice([e[0] for e in l] + list(range(10))) for _ in range(rng.randint(1, 8))]
+            if rng.chance(60):
+                f, (comps, lg) = rng.choice(l); pos = rng.randint(0, len(text)); text[pos:pos] = [f] + comps
+            c7.append((l, text[:12], data, order))
+    def impl_shape_lig(x):
+        from lib.hb import HBFont
+        l, text, data, order = x
+        out = HBFont(data, order).shape("".join(chr(0x61 + g) for g in text), features={"liga": True}, script="DFLT")
+        return [int(o[0][1:]) for o in out]
+    return [Corr("subset_lig", c6, impl_subset_lig), Corr("shape_lig", c7, impl_shape_lig, enc=lambda x: (x[0], x[1])),
+            Corr("closure_gsub", c5, impl_gsub, enc=lambda x: x[1:], compare=cmp_closure),
             Corr("subset_subst", c1, impl_subset, enc=enc_subset),
             Corr("closure", c2, impl_closure, enc=lambda x: ([sorted(m.items()) for m in x[0]], x[1]), compare=cmp_closure),
             Corr("classdef_subset", c3, impl_classdef, enc=enc_classdef),
